@@ -22,8 +22,11 @@ HERE = os.path.dirname(os.path.abspath(__file__))
 
 
 def _reexec_with_fixed_hashseed():
-    if os.environ.get("PYTHONHASHSEED") != "0":
-        env = dict(os.environ, PYTHONHASHSEED="0")
+    # VERIF_HASHSEED is only used by the determinism self-test to show that
+    # digests do not depend on str hashing
+    want = os.environ.get("VERIF_HASHSEED", "0")
+    if os.environ.get("PYTHONHASHSEED") != want:
+        env = dict(os.environ, PYTHONHASHSEED=want)
         os.execve(sys.executable, [sys.executable] + sys.argv, env)
 
 
